@@ -229,7 +229,12 @@ def add_complex(script, rng):
                 rhs = ["+", ["var", rng.choice(have)], ["*", ["cnum", 0.0, 2.0], src]]
             else:
                 rhs = rng.choice([["*", ["cnum", 0.0, 1.0], src], ["+", src, ["cnum", 1.0, -1.0]],
-                                  ["/", ["cnum", 0.0, 1.0], ["num", 2]], ["**", ["cnum", 0.0, 1.0], ["num", 2]]])
+                                  ["/", ["cnum", 0.0, 1.0], ["num", 2]], ["**", ["cnum", 0.0, 1.0], ["num", 2]],
+                                  # complex-typed constants whose imaginary part is exactly zero
+                                  # (coefficients taken from numpy.roots / eigvals come like this)
+                                  ["**", ["cnum", -4.0, 0.0], ["num", 0.5]], ["*", ["cnum", 2.0, 0.0], src],
+                                  ["+", ["cnum", -1.5, 0.0], src], ["**", ["cnum", -2.0, 0.0], src],
+                                  ["/", src, ["cnum", 4.0, 0.0]]])
             name = rng.choice(["zc", "wc", "<state>zc"])
             # only at top level (unconditionally defined for later uses)
             if all(op[0] != "if" or True for op in body[:pos]):
